@@ -68,6 +68,8 @@ var prefixes = []struct {
 	{"sha2-256-trunc16", cid.Prefix{Version: 1, Codec: cid.DagJSON, MhType: multihash.SHA2_256, MhLength: 16}},
 	{"sha2-512", cid.Prefix{Version: 1, Codec: cid.DagJSON, MhType: multihash.SHA2_512, MhLength: -1}},
 	{"blake3", cid.Prefix{Version: 1, Codec: cid.DagJSON, MhType: multihash.BLAKE3, MhLength: 32}},
+	// the identity "hash": the digest is the content itself, and must have exactly the content's length
+	{"identity", cid.Prefix{Version: 1, Codec: cid.DagJSON, MhType: multihash.IDENTITY, MhLength: -1}},
 }
 
 type env struct {
@@ -373,7 +375,10 @@ func Run(args []string) *rep.Report {
 		if body {
 			nv = *variants
 			if *allPrefixes {
-				pf = []int{0, 1, 2, 3, 4}
+				pf = pf[:0]
+				for i := range prefixes {
+					pf = append(pf, i)
+				}
 			} else {
 				pf = []int{(idx + *seed) % len(prefixes)}
 			}
